@@ -18,6 +18,11 @@ M = [
  ('C03-a', 'C03', 'core/wl/message.py', 'self.destroyed_obj = conn.retrieve_object(first_arg.value, -1, None)', 'self.destroyed_obj = conn.retrieve_object(first_arg.value, 0, None)', 1),
  ('C03-b', 'C03', 'core/wl/object.py', 'return self.destroy_time - self.create_time', 'return self.create_time - self.destroy_time', 1),
  ('C03-c', 'C03', 'core/wl/object.py', '        self.destroy_time = time\n        self.alive = False', '        self.destroy_time = time\n        self.alive = self.alive', 1),
+ ('C04-a', 'C04', 'backends/libwayland_debug_output/parse.py', 'is_server = not msg.sent', 'is_server = msg.sent', 1),
+ ('C04-b', 'C04', 'backends/libwayland_debug_output/parse.py', '        for conn_id in self.known_connections:\n            self.sink.close_connection(self.last_time, conn_id)', '        for conn_id in self.known_connections:\n            self.sink.close_connection(self.last_time, conn_id)\n            break', 1),
+ ('C04-c', 'C04', 'core/letter_id_generator.py', '        value = self.index\n        self.index += 1', '        value = self.index\n        self.index += 1 if value != 3 else 0', 1),
+ ('C04-d', 'C04', 'core/connection_manager.py', '        connection = self.open_connections.get(connection_id)\n        assert connection, ', '        connection = self.connection_list[-1] if self.connection_list else None\n        assert connection, ', 1),
+ ('C04-e', 'C04', 'core/connection_manager.py', '            del self.open_connections[connection_id]\n', '', 1),
  ('C16-a', 'C16', 'frontends/tui/controller.py', 'if delta > 1.0:', 'if delta >= 1.0:', 1),
  ('C16-b', 'C16', 'frontends/tui/controller.py', "                ')')\n            self.last_shown_timestamp = None", "                ')')", 1),
  ('C06-a', 'C06', 'frontends/tui/controller.py', 'if self.current_connection is None or connection == self.current_connection:', 'if True:', 1),
